@@ -147,11 +147,11 @@ def scenarios(ctx):
                    budgets=dict(tick=1, setid=1),
                    addr_budgets=[dict(pub=2, ack=1 if q else 2, tick=1, setid=1), dict(pub=2, ack=1, tick=1)]))
     # S2: session state: one side loses its connection and reconnects (persistent or clean) while the other is mid-exchange
-    A = dict(pub=1, ack=1, lose=1, rebuild=1, connect=1, connack=1, tick=1)
-    B = dict(pub=1, sub=1 if not q else 0, ack=1, tick=1)
+    A = dict(pub=2, ack=1 if not q else 0, lose=1, rebuild=1, connect=1, connack=1, tick=1 if not q else 0)
+    B = dict(pub=1, sub=1 if not q else 0, ack=1 if not q else 0, tick=1 if not q else 0)
     out.append(Std('A-reconnects-B-busy', profile='pubsub', naddr=2, init=BOTH, closing=False, pub_qos=(1, 2),
-                   connects=[(False, 0, 4)], reconnects=[(False, 0, 4), (True, 0, 4)],
-                   budgets=dict(tick=1), addr_budgets=[A, B]))
+                   connects=[(False, 0, 4)], reconnects=[(False, 0, 4), (True, 0, 4)], windows=(3,),
+                   budgets=dict(tick=1 if not q else 0, setid=1), addr_budgets=[dict(A, setwin=1), B]))
     A2 = dict(pub=1, sub=1, ack=1, tick=1, setwin=1 if not q else 0)
     B2 = dict(pub=1, ack=1, lose=1, rebuild=1, connect=1, connack=1, unsub=1 if not q else 0, tick=1)
     out.append(Std('B-reconnects-A-busy', profile='pubsub', naddr=2, init=BOTH + (('setwin', 1, 2),), closing=False,
